@@ -834,13 +834,19 @@ func cvPtArg(tok string) *curve.EdwardsPoint {
 // cvExpanded presents P as an ExpandedEdwardsPoint.  Depending on a bit of the (request-determined) token `sel` the value
 // is either fresh, or a by-value copy taken from a working variable that is afterwards re-targeted to another point
 // (expanded points are values: a copy must keep denoting P whatever happens to the variable it was copied from), or a
-// variable that held another point first.
+// variable that held another point first, or an expanded point whose Point() result the caller has since modified.
 func cvExpanded(P *curve.EdwardsPoint, sel string) *curve.ExpandedEdwardsPoint {
 	mode := 0
 	if len(sel) > 0 {
-		mode = int(sel[len(sel)-1]) % 3
+		mode = int(sel[len(sel)-1]) % 4
 	}
 	switch mode {
+	case 3:
+		// the point handed out by Point() belongs to the caller: changing it must not change what the expanded point denotes
+		work := curve.NewExpandedEdwardsPoint(P)
+		q := work.Point()
+		q.Add(q, curve.ED25519_BASEPOINT_POINT)
+		return work
 	case 1:
 		work := curve.NewExpandedEdwardsPoint(P)
 		snap := *work
@@ -990,7 +996,10 @@ func execG1(op string, a []string) string {
 			return "err"
 		}
 		x := curve.NewExpandedEdwardsPoint(P)
-		return "ok " + cvEnc(x.Point()) + " " + cvEnc(cvRecv().SetExpanded(x))
+		q := x.Point()
+		enc := cvEnc(q)
+		q.Add(q, curve.ED25519_BASEPOINT_POINT) // the returned point is the caller's: x must keep denoting P
+		return "ok " + enc + " " + cvEnc(cvRecv().SetExpanded(x))
 	case "dsm", "xdsm":
 		x, A, y := cvScArg(a[0]), cvPtArg(a[1]), cvScArg(a[2])
 		if x == nil || A == nil || y == nil {
